@@ -18,7 +18,7 @@ LEVEL = 'model_checking'
 
 FCH, TCH, DF, DT = 16, 4, 2.0, 1.0
 
-SIGNALS = ['gauss_drift', 'box_sine', 'array_forms', 'scalar_forms', 'int_path_t', 'int_f', 'smear', 'all_flags']
+SIGNALS = ['gauss_drift', 'box_sine', 'array_forms', 'scalar_forms', 'int_path_t', 'int_f', 'smear', 'all_flags', 'smear_arrays']
 RANGES = ['none', 'inside', 'clip_low', 'clip_high', 'above', 'below', 'single', 'reversed']
 BAD = ['bad_shape', 'bad_type']
 
@@ -66,6 +66,10 @@ def signal_args(fr, name):
         return dict(path=stg.squared_path(f(4), 0.8), t_profile=stg.sine_t_profile(5.0), f_profile=stg.voigt_f_profile(2.0, 1.0),
                     bp_profile=stg.constant_bp_profile(0.9), integrate_path=True, integrate_t_profile=True, integrate_f_profile=True,
                     doppler_smearing=True, t_subsamples=2, f_subsamples=2, smearing_subsamples=2)
+    if name == 'smear_arrays':
+        # caller-owned float64 ndarrays for every component that accepts one
+        return dict(path=np.array([f(9), f(9) + 1.5, f(10) + 0.5, f(12), f(12) + 0.25]), t_profile=np.array([1.0, 0.5, 2.0, 1.5]),
+                    f_profile=stg.gaussian_f_profile(2.5), bp_profile=None, doppler_smearing=True, smearing_subsamples=3)
     if name == 'bad_shape':
         return dict(path=f(5), t_profile=[1.0, 2.0], f_profile=stg.gaussian_f_profile(3.0))
     if name == 'bad_type':
@@ -88,7 +92,21 @@ def range_of(fr, name):
             'single': (f(6), f(7)), 'reversed': (f(9), f(3))}[name]
 
 
-def snap(fr):
+def snap(fr, noise=True):
+    d = _snap(fr)
+    if not noise:
+        d.pop('nm'); d.pop('ns')
+    return d
+
+
+def _snap_nonoise(fr):
+    return dict(fs=fr.fs.tobytes(), ts=fr.ts.tobytes(), shape=tuple(fr.shape),
+                meta=json.dumps(fr.metadata, sort_keys=True, default=repr),
+                rng=json.dumps(fr.rng.bit_generator.state, sort_keys=True, default=str),
+                scal=repr((fr.df, fr.dt, fr.fch1, fr.ascending, fr.fmin, fr.fmax, fr.t_start, fr.fchans, fr.tchans)))
+
+
+def _snap(fr):
     return dict(fs=fr.fs.tobytes(), ts=fr.ts.tobytes(), shape=tuple(fr.shape), nm=repr(fr.noise_mean), ns=repr(fr.noise_std),
                 meta=json.dumps(fr.metadata, sort_keys=True, default=repr),
                 rng=json.dumps(fr.rng.bit_generator.state, sort_keys=True, default=str),
@@ -109,12 +127,15 @@ def col_masks(fr, rng_):
     return out, ins
 
 
-def inject(fr, step, V, wd, check=True):
+def inject(fr, step, V, wd, check=True, ctrl_noise=None):
     """One transition on the real frame.  Returns the returned signal (or None for a rejected call)."""
     sname, rname = step
     before = np.array(fr.data, copy=True)
-    s0 = snap(fr)
+    # the noise estimates are deliberately NOT read before the call (a lazily computed estimate would otherwise be
+    # pinned by the harness itself); afterwards they must equal those of an untouched control frame (ctrl_noise)
+    s0 = _snap_nonoise(fr)
     args = signal_args(fr, sname)
+    caller_arrays = {k: (v, np.array(v, copy=True)) for k, v in args.items() if isinstance(v, np.ndarray)}
     rng_ = range_of(fr, rname)
     tag = '%s @ %s' % (sname, rname)
     try:
@@ -122,7 +143,7 @@ def inject(fr, step, V, wd, check=True):
     except Exception as e:
         if sname in BAD:
             if check:
-                if not np.array_equal(fr.data, before, equal_nan=True) or snap(fr) != s0:
+                if not np.array_equal(fr.data, before, equal_nan=True) or _snap_nonoise(fr) != s0:
                     V('rejected_call_changed_state', '%s: rejected with %s but the frame changed' % (tag, type(e).__name__))
                 want = ValueError if sname == 'bad_shape' else TypeError
                 if not isinstance(e, want):
@@ -140,10 +161,15 @@ def inject(fr, step, V, wd, check=True):
     if np.shape(sig) != tuple(fr.shape):
         V('returned_shape', '%s: returned shape %s, frame %s' % (tag, np.shape(sig), fr.shape))
         return sig
-    s1 = snap(fr)
+    s1 = _snap_nonoise(fr)
     diff = [k for k in s0 if s0[k] != s1[k]]
+    if ctrl_noise is not None and (repr(fr.noise_mean), repr(fr.noise_std)) != ctrl_noise:
+        diff.append('noise estimates (%s, %s) != untouched control frame %s' % (repr(fr.noise_mean), repr(fr.noise_std), ctrl_noise))
     if diff:
         V('state_changed', '%s changed the frame\'s %s' % (tag, diff))
+    for k, (obj, cp) in caller_arrays.items():
+        if not np.array_equal(obj, cp):
+            V('caller_array_modified', '%s: the caller\'s %s array was modified by the call (%s -> %s)' % (tag, k, cp[:3], obj[:3]))
     after = fr.data
     if after.dtype != before.dtype or after.shape != before.shape:
         V('data_container_changed', '%s: data dtype/shape %s%s -> %s%s' % (tag, before.dtype, before.shape, after.dtype, after.shape))
@@ -216,18 +242,22 @@ def case_sequences(c):
         res = {'viol': viol, 'n': 0, 'traces': 0, 'transitions': 0, 'state_keys': set()}
         base = mk_frame(prior, asc, 7 + c['seed'], wd)
         prior_data = np.array(base.data, copy=True).astype(np.float64)
+        ctrl_noise = (repr(base.noise_mean), repr(base.noise_std))      # control frame: estimates read before any injection
         res['state_keys'].add(engine.sha([prior, asc, 'init']))
         for rest in itertools.product(range(len(steps)), repeat=depth - 1):
             hist = [steps[first]] + [steps[k] for k in rest]
             fr = mk_frame(prior, asc, 7 + c['seed'], wd)
             applied = []
+            held = []          # the arrays add_signal returned, kept WITHOUT copying (as a caller would), + a private copy
             ok = True
             for d, st in enumerate(hist):
                 hist_box[0] = [list(h) for h in hist[:d + 1]]
                 # a prefix is verified once: in the sequence where everything after it is step 0 (or it is the last step)
                 check = (d == len(hist) - 1) or all(k == 0 for k in rest[d:])
                 nv = len(viol)
-                sig = inject(fr, st, V, wd, check=check)
+                sig = inject(fr, st, V, wd, check=check, ctrl_noise=ctrl_noise)
+                if sig is not None:
+                    held.append((sig, np.array(sig, copy=True)))
                 res['transitions'] += 1 if check else 0
                 if len(viol) > nv:
                     ok = False
@@ -239,6 +269,14 @@ def case_sequences(c):
             if not ok:
                 if len(viol) >= 4:
                     break
+                continue
+            # arrays returned by earlier injections must not be overwritten by later ones
+            for hi, (obj, cp) in enumerate(held):
+                if obj.shape != cp.shape or not np.array_equal(obj, cp):
+                    V('returned_array_overwritten', 'the array returned by injection %d of %s was modified by a later injection' % (hi, hist))
+                    ok = False
+                    break
+            if not ok:
                 continue
             # superposition at the leaf
             if all(solo.get(st) is not None for st in applied):
